@@ -1,7 +1,11 @@
 // Correspondence harness for C05 (and the buffer part of C04/C19): histories of ST::buffer<T> operations
 // over a pool of objects in raw storage, with a full snapshot of every live object after every step.
 //   hist w=<8|16|32|w> ops=<op;op;…>     => s1=<snapshot> s2=<snapshot> … end=<leak|clean>
-//   fault w=… ops=<prefix ops> op=<op> k=<n>  => as hist, the last op running with its k-th allocation failing
+//   fault w=… ops=<prefix ops> op=<op> k=<n>  => s1=… sm=… f=<bad_alloc|completed> allocs=<a> sf=<snapshot> end=<leak|clean>
+//        (C19, buffer level) the prefix as in hist, then <op> with the k-th allocation made *by the library call* failing
+//        (the harness's own temporaries are allocated before the fault is armed); a = allocations the call attempted;
+//        sf = snapshot after the call returned or threw; then every live object is destroyed (ASan: bad free, double
+//        free, use after free abort the case and are attributed to it by the runner)
 // ops: D<o> default ctor | U<o>:<hex> ctor(ptr,size) | C<o>,<s> copy ctor | M<o>,<s> move ctor | X<o> dtor | R<o> clear
 //      c<o>,<s> copy assign | m<o>,<s> move assign | A<o>,<n> allocate | F<o>,<n>,<v> allocate(fill) | W<o>,<at>:<hex> write via data()
 // snapshot: objects in id order, "o<id>:<size>:<units>:<terminator>:<where>", where = L (own in-object array) |
@@ -16,7 +20,15 @@ template <class T> struct PoolT {
     typedef ST::buffer<T> B;
     alignas(B) unsigned char raw[NOBJ][sizeof(B)];
     bool live[NOBJ] = {};
+    long arm = -1;          // >= 1: the next apply() runs its library call with that allocation failing
+    long attempted = 0;     // allocations attempted by the last armed library call
     B *at(int o) { return reinterpret_cast<B *>(raw[o]); }
+    // arms the fault for exactly the library call in its scope
+    struct Armed {
+        PoolT &p; bool on;
+        explicit Armed(PoolT &pp) : p(pp), on(pp.arm >= 1) { if (on) { alloc_ctl().count = 0; alloc_ctl().fail_at = p.arm; } }
+        ~Armed() { if (on) { p.attempted = alloc_ctl().count; alloc_ctl().fail_at = -1; p.arm = -1; } }
+    };
 
     std::string snapshot() {
         std::string out; std::vector<const void *> blocks;
@@ -54,20 +66,22 @@ template <class T> struct PoolT {
         std::vector<uint64_t> us; if (colon != std::string::npos) us = parse_units(op.substr(colon + 1), 8 * sizeof(T) > 32 ? 32 : 8 * sizeof(T));
         std::vector<T> tv(us.begin(), us.end());
         CountScope scope;
+        // the harness's own temporary (source units of the pointer constructor) exists before the fault is armed
+        struct Tmp { T *p = nullptr; ~Tmp() { delete[] p; } } tmp;
+        if (c == 'U') { size_t n = tv.size(); tmp.p = new T[n ? n : 1]; for (size_t i = 0; i < n; ++i) tmp.p[i] = tv[i]; }
         switch (c) {
-        case 'D': new (raw[o]) B(); live[o] = true; break;
-        case 'U': { size_t n = tv.size(); T *tmp = new T[n ? n : 1]; for (size_t i = 0; i < n; ++i) tmp[i] = tv[i];
-                    try { new (raw[o]) B(tmp, n); } catch (...) { delete[] tmp; throw; } delete[] tmp; live[o] = true; break; }
-        case 'C': new (raw[o]) B(*at((int)a1)); live[o] = true; break;
-        case 'M': new (raw[o]) B(std::move(*at((int)a1))); live[o] = true; break;
-        case 'X': at(o)->~B(); live[o] = false; break;
-        case 'R': at(o)->clear(); break;
-        case 'c': *at(o) = *at((int)a1); break;
-        case 'm': *at(o) = std::move(*at((int)a1)); break;
-        case 'A': at(o)->allocate((size_t)a1);
+        case 'D': { Armed f(*this); new (raw[o]) B(); } live[o] = true; break;
+        case 'U': { Armed f(*this); new (raw[o]) B(tmp.p, tv.size()); } live[o] = true; break;
+        case 'C': { Armed f(*this); new (raw[o]) B(*at((int)a1)); } live[o] = true; break;
+        case 'M': { Armed f(*this); new (raw[o]) B(std::move(*at((int)a1))); } live[o] = true; break;
+        case 'X': { Armed f(*this); at(o)->~B(); } live[o] = false; break;
+        case 'R': { Armed f(*this); at(o)->clear(); } break;
+        case 'c': { Armed f(*this); *at(o) = *at((int)a1); } break;
+        case 'm': { Armed f(*this); *at(o) = std::move(*at((int)a1)); } break;
+        case 'A': { Armed f(*this); at(o)->allocate((size_t)a1); }
                   // contents are unspecified after allocate(): canonicalise them to the model's marker
                   for (long i = 0; i < a1; ++i) at(o)->data()[i] = (T)0xCD; break;
-        case 'F': at(o)->allocate((size_t)a1, (T)a2); break;
+        case 'F': { Armed f(*this); at(o)->allocate((size_t)a1, (T)a2); } break;
         case 'W': { T *d = at(o)->data(); for (size_t i = 0; i < tv.size(); ++i) d[a1 + i] = tv[i]; break; }
         }
     }
@@ -95,13 +109,13 @@ template <class T> static std::string run_hist(const Args &a) {
     if (is_fault) {
         // run the last operation with its k-th allocation failing; the pre-state is the one just built
         long k = (long)a.num("k");
-        alloc_ctl().count = 0; alloc_ctl().fail_at = k;
+        pool.arm = k < 1 ? 1 : k; pool.attempted = 0;
         std::string res = "completed";
         try { pool.apply(a.get("op")); }
         catch (const std::bad_alloc &) { res = "bad_alloc"; }
         catch (...) { res = "other"; }
-        alloc_ctl().fail_at = -1;
-        out += "f=" + res + " sf=" + pool.snapshot() + " ";
+        alloc_ctl().fail_at = -1; pool.arm = -1;
+        out += "f=" + res + " allocs=" + std::to_string(pool.attempted) + " sf=" + pool.snapshot() + " ";
     }
     pool.destroy_all();
     // leak accounting: every block obtained through operator new during the history must be gone now
@@ -115,9 +129,6 @@ template <class T> static std::string run_hist(const Args &a) {
 }
 
 static std::string exec_case(const Args &a) {
-    if (a.op == "allocs") {   // how many allocations does `op` perform after `ops`?  (used to enumerate fault positions)
-        return "n/a";
-    }
     const std::string &w = a.get("w");
     return guarded([&]() -> std::string {
         if (w == "8") return run_hist<char>(a);
@@ -169,6 +180,50 @@ static std::string rand_op(Rng &rng, GenState &g, int nobj) {
     }
 }
 
+// C19, buffer level: every menu operation on targets/sources of every size class (and after random histories), with the
+// k-th allocation of the library call failing.  A buffer member performs at most one allocation, so k = 1 covers
+// "every k = 1..n" and k = 2 is the control in which the fault never fires and the call must complete.
+struct FaultTy { const char *w; int bits; int L; };
+template <class InSlice> static void gen_faults(Emitter &em, const Options &opt, InSlice in_slice, Rng &rng) {
+    bool thorough = opt.tier == "thorough";
+    std::vector<FaultTy> types = {{"8", 8, 16}, {"16", 16, 16}, {"32", 32, 12}, {"w", 32, 12}};
+    for (const auto &ty : types) {
+        if (!thorough && std::string(ty.w) != "8" && std::string(ty.w) != "32") continue;
+        int L = ty.L;
+        std::vector<size_t> classes = {0, 1, (size_t)L - 1, (size_t)L, (size_t)L + 1, (size_t)3 * L};
+        for (size_t c0 : classes) for (size_t c1 : classes) {
+            Rng r2(c0 * 977 + c1 * 31 + 11);
+            std::string pro = "U0:" + rand_units(r2, c0, ty.bits) + ";U1:" + rand_units(r2, c1, ty.bits);
+            // prefixes: plain; target moved-from; source moved-from; target cleared after being long
+            std::vector<std::string> prefixes = {pro, pro + ";M3,0;X3", pro + ";M3,1;X3", pro + ";m0,0", pro + ";c0,1;R0"};
+            if (!thorough) prefixes.resize(2);
+            std::vector<std::string> menu = {"D2", "C2,1", "C2,0", "M2,1", "M2,0", "X0", "R0", "c0,1", "c0,0", "c1,0", "m0,1", "m1,0", "m0,0"};
+            for (size_t n : classes) {
+                menu.push_back("U2:" + rand_units(r2, n, ty.bits));
+                menu.push_back("A0," + std::to_string(n));
+                menu.push_back("F0," + std::to_string(n) + ",65");
+                menu.push_back("A1," + std::to_string(n));
+            }
+            for (const auto &pre : prefixes) for (const auto &op : menu) for (int k = 1; k <= 2; ++k)
+                if (in_slice())
+                    em.emit(std::string("fault w=") + ty.w + " L=" + std::to_string(L) + " ops=" + pre + " op=" + op + " k=" + std::to_string(k));
+        }
+    }
+    // random histories followed by one random operation with its allocation failing
+    int nrand = thorough ? 24000 : 3000;
+    for (int i = 0; i < nrand; ++i) {
+        const FaultTy &ty = types[i % 4];
+        GenState g; g.L = ty.L; g.w = ty.bits;
+        int nobj = 3 + (int)rng.below(4), len = 1 + (int)rng.below(20);
+        std::string ops;
+        for (int j = 0; j < len; ++j) { if (j) ops += ";"; ops += rand_op(rng, g, nobj); }
+        std::string op = rand_op(rng, g, nobj);
+        size_t semi = op.find(';'); if (semi != std::string::npos) op.resize(semi);   // "A..;W.." -> the allocate alone
+        int k = 1 + (int)rng.below(8) / 7;    // mostly the first allocation, sometimes the control
+        if (in_slice()) em.emit(std::string("fault w=") + ty.w + " L=" + std::to_string(ty.L) + " ops=" + ops + " op=" + op + " k=" + std::to_string(k));
+    }
+}
+
 static void gen(Emitter &em, const Options &opt) {
     Rng rng(opt.seed * 7919 + 17);
     bool thorough = opt.tier == "thorough";
@@ -176,6 +231,10 @@ static void gen(Emitter &em, const Options &opt) {
     auto in_slice = [&]() { return (int)(k++ % opt.nslices) == opt.slice; };
     struct Ty { const char *w; int bits; int L; };
     std::vector<Ty> types = {{"8", 8, 16}, {"16", 16, 16}, {"32", 32, 12}, {"w", 32, 12}};
+    const bool want_hist = opt.prop.empty() || opt.prop == "C05" || opt.prop == "C04";
+    const bool want_fault = opt.prop.empty() || opt.prop == "C19";
+    if (want_fault) gen_faults(em, opt, in_slice, rng);
+    if (!want_hist) return;
     // (1) exhaustive short histories over 3 objects and the size classes, for char (quick) / all types (thorough):
     //     every sequence of `depth` operations drawn from a fixed menu, after a fixed prologue that creates the objects
     for (const auto &ty : types) {
@@ -217,4 +276,13 @@ static void gen(Emitter &em, const Options &opt) {
     }
 }
 
-int main(int argc, char **argv) { return run_main(argc, argv, gen, exec_case); }
+int main(int argc, char **argv) {
+    // Every case here is microseconds of work, but LeakSanitizer's stop-the-world pass and a heavily loaded machine can
+    // stall a worker for seconds; no buffer member contains a loop that could spin, so a generous per-case limit
+    // (instead of the runner's 4 s default) only removes false "hang" verdicts.  An explicit --timeout still wins.
+    std::vector<char *> args(argv, argv + argc);
+    static char flag[] = "--timeout", val[] = "30";
+    bool given = false; for (int i = 1; i < argc; ++i) if (std::string(argv[i]) == "--timeout") given = true;
+    if (!given) { args.push_back(flag); args.push_back(val); }
+    return run_main((int)args.size(), args.data(), gen, exec_case);
+}
